@@ -33,7 +33,9 @@ LEVEL_TEXT = ("Coq theorems over the C01 meiosis model (crossover indicator = dr
               "distance expressions of gdist1g (+inf at chromosome starts, this - previous elsewhere) and the wiring of rprob1g/interp_xoprob/"
               "from_gmod are regenerated from the source on every run (Gen/C02_Kernel.v), proved equal to the C01 model (segment-copy loop = "
               "per-marker gamete, by induction), and the rate/segregation/provenance/row-indexing/Haldane-composition theorems are restated about "
-              "the generated definitions (C02_kernel_*)")
+              "the generated definitions (C02_kernel_*); sessions: the k-th meiosis call of any sequence of calls on one generator equals the "
+              "meiosis of the state handed to call k on the k-th matrix of draws (no stale state); stored probabilities outside [0,1] act as "
+              "never/always, the effective probability is monotone in the stored one and stays >= 1/2 for stored values >= 1/2 (no clipping)")
 LEVEL_NOTE = ("trusted: Coq kernel + vm_compute, classical reals, Coq-Interval; numpy's PCG64/uniform produce independent draws uniform on "
               "{k/2^53} (the convergence claim for the *real* streams rests on this; the monitor only samples it at fixed seeds); "
               "the statistical monitor is supporting evidence (exact two-sided binomial acceptance intervals, per-statistic alpha 1e-14), "
